@@ -813,7 +813,7 @@ def class_scenarios(rng, count):
 def iteration_scenarios(rng, count):
     out = []
     sources = ["vec0", "vec1", "vec3", "tuple0", "tuple2", "range-up", "range-down", "range-empty", "user", "user-early", "user-derived",
-               "iter-of-vec", "nested-vec", "user-derived-fresh", "user-derived-fresh", "user-resetting", "user-resetting", "next-only"]
+               "iter-of-vec", "nested-vec", "user-derived-fresh", "user-derived-fresh", "user-resetting", "user-resetting", "next-only", "next-field", "next-field", "iter-field"]
     for k in range(count):
         b = Builder()
         # user-defined iterables
@@ -849,10 +849,21 @@ def iteration_scenarios(rng, count):
         b.if_(bin_(">=", get(b.v("self"), "i"), lit(3))); b.ret(inv(b.v("StopIter"), "new")); b.end()
         b.expr(setf(b.v("self"), "i", bin_("+", get(b.v("self"), "i"), lit(1)))); b.ret(get(b.v("self"), "i")); b.end()
         b.end()
+        # the protocol methods are looked up like any other call: a field named next / iter on the instance is what gets called
+        b.class_("Holder", sup="Iter", ctor="new")
+        b.method("next", []); b.ret(inv(b.v("StopIter"), "new")); b.end()          # shadowed by the field in "next-field"
+        b.end()
         wrap_fn = rng.random() < 0.5
         if wrap_fn:
             b.fn("run", [])
         src = rng.choice(sources)
+        if src in ("next-field", "iter-field"):
+            b.var("holder", inv(b.v("Holder"), "new"))
+            b.var("backing", inv(vec(lit(7), lit(8), lit(9)), "iter"))
+            if src == "next-field":
+                b.expr(setf(b.v("holder"), "next", b.lam([], lambda: inv(b.v("backing"), "next"))))     # next as a closure in a field
+            else:
+                b.expr(setf(b.v("holder"), "iter", b.lam([], lambda: b.v("backing"))))     # iter as a closure in a field
 
         def source():
             if src == "vec0": return vec()
@@ -870,18 +881,19 @@ def iteration_scenarios(rng, count):
             if src == "iter-of-vec": return inv(vec(lit(5), lit(6)), "iter")
             if src == "user-resetting": return inv(b.v("Rewind"), "make")
             if src == "next-only": return inv(b.v("NextOnly"), "make")
+            if src in ("next-field", "iter-field"): return b.v("holder")
             return vec(vec(lit(1)), vec(), vec(lit(2), lit(3)))
         rng_ = lambda a, c: {"k": "range", "l": lit(a), "r": lit(c)}
         b.var("src", source())
         numeric = src in ("vec3", "range-up", "range-down", "range-empty", "user", "user-early", "user-derived", "iter-of-vec", "user-derived-fresh",
-                          "user-resetting", "next-only")
+                          "user-resetting", "next-only", "next-field", "iter-field")
         chainable = src not in ("user", "user-early")        # plain user classes do not derive Iter
         nchain = rng.randint(0, 3) if chainable else 0
         e = b.v("src")
         if src == "next-only":
             # wrapped directly by the adapter classes (Iter.map / Iter.filter would call iter() on it, which it inherits from Iter)
             nchain = max(nchain, 1)
-        if nchain and src not in ("user-derived", "iter-of-vec", "user-derived-fresh", "user-resetting", "next-only"):
+        if nchain and src not in ("user-derived", "iter-of-vec", "user-derived-fresh", "user-resetting", "next-only", "next-field", "iter-field"):
             e = inv(e, "iter")
         for c in range(nchain):
             which = rng.choice(["map", "filter", "map-id", "filter"])
@@ -899,7 +911,7 @@ def iteration_scenarios(rng, count):
                 e = inv(e, "filter", b.lam(["x"], lambda: (bin_("!=", b.v("x"), lit(2 + 2 * c)) if numeric else lit(c % 2 == 0))))
         consumer = rng.choice(["for", "for", "for-break", "for-continue", "for-return", "collect", "reduce", "nested", "interleaved", "mutate", "manual-next",
                                "range-held"])
-        if consumer in ("collect", "reduce") and not (nchain or src in ("user-derived", "iter-of-vec", "user-derived-fresh", "user-resetting")):
+        if consumer in ("collect", "reduce") and not (nchain or src in ("user-derived", "iter-of-vec", "user-derived-fresh", "user-resetting", "next-field", "iter-field")):
             consumer = "for"
         if consumer == "for":
             b.for_("v", e); b.print(b.v("v")); b.end()
@@ -960,7 +972,8 @@ def error_scenarios(rng, count):
     out = []
     kinds = ["type-add", "type-call", "name", "index", "value-derives", "attribute", "runtime-pop", "throw-string", "throw-number",
              "throw-error", "throw-subclass", "host-AttributeError", "host-CompileError", "host-ImportError", "host-IndexError",
-             "host-NameError", "host-RuntimeError", "host-TypeError", "host-ValueError", "arity", "stack-overflow", "set-field", "range-type"]
+             "host-NameError", "host-RuntimeError", "host-TypeError", "host-ValueError", "arity", "stack-overflow", "set-field", "range-type",
+             "throw-deep-subclass", "throw-builtin-subclass"]
     links = ["fn", "method", "static", "lambda", "fiber", "ctor", "bound"]
     for k in range(count):
         b = Builder()
@@ -973,6 +986,12 @@ def error_scenarios(rng, count):
             b.var("nl0", lit("first\nsecond\n\nfourth"))
             b.var("nl1", {"k": "interp", "parts": [lit("a\nb"), b.v("nl0"), lit("\n")]} if False else lit("tab\tand\nnewline"))
         b.class_("MyErr", sup="Error", ctor="new"); b.method("make", ["c"], "ctor"); b.expr(b.superinv("new", b.v("c"))); b.end(); b.end()
+        # error classes further down: two levels below Error, and below a built-in error class
+        b.class_("DeepErr", sup="MyErr"); b.method("make2", ["c"], "ctor"); b.expr(b.superinv("make", b.v("c"))); b.end(); b.end()
+        b.class_("ParseErr", sup="ValueError"); b.method("at", ["c"], "ctor"); b.expr(setf(b.v("self"), "context", b.v("c"))); b.end(); b.end()
+        # the failure happens in a finally block while another exception is waiting (not for the recursion kind: 64 nested
+        # finally blocks each interrupted by the overflow are the subject of C08's findings, not of error reporting)
+        in_finally = rng.random() < 0.2 and kind != "stack-overflow"
         b.class_("Host", ctor="new")
         for i, link in enumerate(chain):
             if link in ("method", "bound"):
@@ -1003,11 +1022,20 @@ def error_scenarios(rng, count):
             elif kind == "throw-number": b.throw(lit(42))
             elif kind == "throw-error": b.throw(inv(b.v("Error"), "new", lit("ctx of Error")))
             elif kind == "throw-subclass": b.throw(inv(b.v("MyErr"), "make", lit("ctx of MyErr")))
+            elif kind == "throw-deep-subclass": b.throw(inv(b.v("DeepErr"), "make2", lit("ctx of DeepErr")))
+            elif kind == "throw-builtin-subclass": b.throw(inv(b.v("ParseErr"), "at", lit("ctx of ParseErr")))
             elif kind.startswith("host-"): b.expr(call(b.v("host_fail"), lit(kind[5:])))
             elif kind == "arity": b.expr(call(b.v("step%d" % n)))
             elif kind == "stack-overflow": b.expr(call(b.v("step%d" % n), b.v("arg")))
             elif kind == "set-field": b.expr(setf(lit(3), "f", lit(1)))
             elif kind == "range-type": b.print({"k": "range", "l": lit(1), "r": lit("x")})
+        fail0 = fail
+
+        def fail():
+            if in_finally:
+                b.try_(); b.throw(lit("superseded")); b.finally_(); b.var("infin", lit("fin local")); fail0(); b.end()
+            else:
+                fail0()
         if caught_at == n:
             b.try_(); fail(); b.catch("e"); b.print(tup(lit("caught"), call(b.v("type"), b.v("e")))); b.print(b.v("local")); b.end()
         else:
@@ -1152,7 +1180,8 @@ def snippet_scenarios(rng, count):
                  "throw-in-finally", "builtin-error", "import", "import-failing", "reset", "try-finally-ok", "fiber-persist", "fiber-resume",
                  "uncaught-in-class-def", "closure-persist", "mutate-var", "throw-through-two-finally", "error-in-method",
                  "inspect-failed-fiber", "fail-in-module-fn", "use-after", "closure-escapes-failure", "closure-escapes-failure", "use-escaped-closure",
-                 "use-escaped-closure", "closure-escapes-fiber-failure"]
+                 "use-escaped-closure", "closure-escapes-fiber-failure", "import-uncompilable", "import-uncompilable", "import-uncompilable-uncaught",
+                 "fiber-parked-in-finally", "try-finally-ok"]
     triples = [(a, c) for a in catalogue for c in catalogue if a != "reset" and c != "reset"]
     for k in range(count):
         n = rng.randint(2, 6)
@@ -1166,7 +1195,8 @@ def snippet_scenarios(rng, count):
             plan = [rng.choice(["closure-escapes-failure", "closure-escapes-fiber-failure"])] + plan + ["use-escaped-closure"]
         n = len(plan)
         snips = []
-        mods = [{"path": "lib", "prog": None}, {"path": "broken", "prog": None}]
+        mods = [{"path": "lib", "prog": None}, {"path": "broken", "prog": None},
+                {"path": "uncompilable", "bad": True, "msg": bad_msg("uncompilable"), "src": BAD_SRC, "prog": []}]
         lb = Builder(first_decl=5000); lb.print(lit("lib body")); lb.var("v", lit("lib.v")); lb.fn("f", []); lb.ret(lit("lib.f")); lb.end(); lb.fn("fails", []); lb.throw(lit("lib.fails")); lb.end()
         mods[0]["prog"] = lb.toks
         bb = Builder(first_decl=6000); bb.print(lit("broken body")); bb.throw(lit("broken while loading"))
@@ -1244,6 +1274,15 @@ def snippet_scenarios(rng, count):
                 b.var("filler", vec(vec(lit(1)), tup(lit(2), lit(3)), vec(lit(4))))
                 b.try_(); b.print(call(b.v("esc_get"))); b.expr(call(b.v("esc_set"), tup(lit("new"), vec(lit(si))))); b.print(call(b.v("esc_get")))
                 b.catch("e"); b.print(tup(lit("no escaped closure"), call(b.v("type"), b.v("e")))); b.end()
+            elif kind == "import-uncompilable":
+                # a module that does not compile fails the same way every time it is imported
+                b.try_(); b.import_("uncompilable", "unc"); b.print(lit("unreached")); b.catch("e"); b.print(tup(call(b.v("type"), b.v("e")), get(b.v("e"), "context"))); b.end()
+            elif kind == "import-uncompilable-uncaught":
+                b.import_("uncompilable", "unc"); b.print(lit("unreached"))
+            elif kind == "fiber-parked-in-finally":
+                # a fiber is left suspended INSIDE a finally block that runs because of an exception; the run itself ends normally
+                b.fn("parker", []); b.try_(); b.throw(lit("pending in parked fiber")); b.finally_(); b.expr(inv(b.v("Fiber"), "yield", lit("parked"))); b.end(); b.end()
+                b.var("parked", inv(b.v("Fiber"), "new", b.v("parker"))); b.print(inv(b.v("parked"), "call"))
             elif kind == "error-in-method":
                 b.class_("Tmp", ctor="new"); b.method("boom", []); b.ret(bin_("-", lit("x"), lit(1))); b.end(); b.end(); b.print(inv(inv(b.v("Tmp"), "new"), "boom"))
             snips.append({"prog": b.toks})
